@@ -43,7 +43,7 @@ m = {
     ],
     "checks": checks,
     "not_applicable": NOT_APPLICABLE,
-    "notes": "exit 2 = INCONCLUSIVE (lost anchor, unsupported construct, resource limit): never an alarm. Known findings and fixed defects: /verif/known_findings.json (15 open findings, each printed as a KNOWN-FINDING line by its check; 32 fix: commits in /repo). See DESIGN.md, in particular the closing paragraph of §6 on what a PASS decides.",
+    "notes": "exit 2 = INCONCLUSIVE (lost anchor, unsupported construct, resource limit): never an alarm. Known findings and fixed defects: /verif/known_findings.json (14 open findings, each printed as a KNOWN-FINDING line by its check; 33 fix: commits in /repo). See DESIGN.md, in particular the closing paragraph of §6 on what a PASS decides.",
 }
 json.dump(m, open(os.path.join(os.path.dirname(os.path.abspath(__file__)), "MANIFEST.json"), "w"), indent=1)
 print("MANIFEST.json written:", len(checks), "checks,", len(NOT_APPLICABLE), "not applicable")
